@@ -5,6 +5,7 @@ import (
 	"fmt"
 	"io"
 	"slices"
+	"strings"
 
 	"reduction.dev/reduction/dkv/kv"
 	"reduction.dev/reduction/dkv/sst"
@@ -167,6 +168,17 @@ func LoadCheckpointList(fs storage.FileSystem, dataOwnership kv.DataOwnership, c
 		// Merge level list
 		for levelIndex, level := range doc.Levels {
 			compositeCheckpointDoc.Levels[levelIndex] = append(compositeCheckpointDoc.Levels[levelIndex], level...)
+		}
+	}
+
+	// The merged documents come from instances that owned disjoint key ranges
+	// but they're listed in no particular order. Below level 0 the tables of a
+	// level have to be in key order to be searchable.
+	if len(rest) > 0 {
+		for levelIndex := 1; levelIndex < len(compositeCheckpointDoc.Levels); levelIndex++ {
+			slices.SortStableFunc(compositeCheckpointDoc.Levels[levelIndex], func(a, b sst.TableDocument) int {
+				return strings.Compare(a.StartKey, b.StartKey)
+			})
 		}
 	}
 
